@@ -18,6 +18,7 @@
 #include <dlfcn.h>
 #include <sched.h>
 #include <unistd.h>
+#include <time.h>
 
 /* ================================================================== workload */
 typedef struct {
@@ -61,6 +62,44 @@ static double cmp_nan(matrix *a, matrix *b, int *bit)
     d = fabs(x - y); if (d > s) s = d;
   }
   return s;
+}
+
+/* ================================================================== wall-clock monitor and per-thread RNG chain monitor (all builds)
+ * The executable's definition of time() wins for the library objects linked into it.  The fake clock advances on
+ * every read, so a routine whose result depends on the wall clock (a zero generator state falls back to time(NULL))
+ * returns different results in two runs, and the read itself is counted: a read by a non-intruder thread while a
+ * judged (seeded) routine runs is a determinism violation that does not wait for the clock to tick. */
+static __thread int t_is_intruder;
+static long g_clock_reads, g_clock_tick;
+time_t time(time_t *t)
+{
+  long v = __atomic_add_fetch(&g_clock_tick, 7919, __ATOMIC_RELAXED);
+  time_t r = (time_t)(1700000000L + v);
+  if (!t_is_intruder) __atomic_add_fetch(&g_clock_reads, 1, __ATOMIC_RELAXED);
+  if (t) *t = r;
+  return r;
+}
+/* chain monitor: within one thread every consumed generator state is the LCG successor of the state (or seed) the
+ * same thread saw at its previous RNG event - "the seeded stream consumed by one worker is never perturbed by another" */
+static __thread uint32_t ch_next; static __thread int ch_have;
+static long g_chain_events, g_chain_breaks, g_zero_states;
+static uint32_t g_break_saw, g_break_want;
+static void chain_event(int fn, uint32_t st)
+{
+  __atomic_add_fetch(&g_chain_events, 1, __ATOMIC_RELAXED);
+  if (fn == 0) { ch_next = or_lcg(st); ch_have = ch_next != 0; return; }   /* the documented generator defines no successor that is 0 */
+  if (ch_have && st != ch_next) { if (__atomic_add_fetch(&g_chain_breaks, 1, __ATOMIC_RELAXED) == 1) { g_break_saw = st; g_break_want = ch_next; } }
+  if (st == 0) { if (!t_is_intruder) __atomic_add_fetch(&g_zero_states, 1, __ATOMIC_RELAXED); ch_have = 0; return; }   /* falls back to the clock */
+  ch_next = or_lcg(st); ch_have = ch_next != 0;
+}
+static uint64_t g_jit; static int g_jitter;
+static void other_hook(int fn, uint32_t st)
+{
+  chain_event(fn, st);
+  if (g_jitter) {
+    uint64_t r = __atomic_add_fetch(&g_jit, 0x9E3779B97F4A7C15ULL, __ATOMIC_RELAXED); r ^= r >> 29; r *= 0xBF58476D1CE4E5B9ULL; r ^= r >> 32;
+    if ((r & 3) == 0) sched_yield(); else if ((r & 31) == 1) usleep((useconds_t)((r >> 8) % 120));
+  }
 }
 
 /* ================================================================== scheduler (not in the tsan build) */
@@ -180,6 +219,7 @@ int pthread_create(pthread_t *th, const pthread_attr_t *attr, void *(*fn)(void *
 static void sched_hook(int fn, uint32_t st)
 {
   int slot = t_slot;
+  chain_event(fn, st);
   if (!S.active || slot < 0) return;
   if (S.mode == 3) { pthread_mutex_lock(&S.mu); record_event(slot, fn, st); pthread_mutex_unlock(&S.mu); return; }   /* counting only */
   if (S.mode == 2) {                         /* delay injection: perturb timing, record the order */
@@ -310,10 +350,11 @@ static long n_sample(int tier) { return tier ? 3000 : 120; }
 static long n_delay(int tier) { return tier ? 600 : 48; }
 static long n_sweep(int tier) { return tier ? 2000 : 96; }
 static long n_tsan(int tier) { return tier ? 320 : 48; }
+static long n_other(int tier) { return vh_is_tsan() ? (tier ? 330 : 44) : (tier ? 3300 : 220); }
 static long ncases(int tier)
 {
-  if (vh_is_tsan()) return n_tsan(tier) + (tier ? 200 : 32);
-  return n_dfs(tier) + n_sample(tier) + n_delay(tier) + n_sweep(tier);
+  if (vh_is_tsan()) return n_tsan(tier) + (tier ? 200 : 32) + n_other(tier);
+  return n_dfs(tier) + n_sample(tier) + n_delay(tier) + n_sweep(tier) + n_other(tier);
 }
 
 #if !defined(__SANITIZE_THREAD__)
@@ -450,6 +491,140 @@ static void case_sweep(vh_ctx *c)
   DelMatrix(&ref); wl_free(&w);
 }
 
+/* ================================================================== other seeded routines (both builds)
+ * "every other routine that draws pseudo-random numbers after seeding": ensemble PLS (bagging), cross-validation of
+ * ensemble models, PCA rank validation, k-means cross-validation, k-means with random / k-means++ start after
+ * srand_(seed), y-scrambling, and the two seedable split generators.  Each routine is run (a) on the main thread with
+ * one worker = reference, (b) again after the calling thread's generator was left in another state by unrelated
+ * calls, (c) from a freshly created thread, (d) with an intruder thread seeding and drawing concurrently, with
+ * delays injected at every RNG call, at a different worker count.  (a)-(c) must be bit-identical, (d) bit-identical
+ * between repeats and equal to rounding to (a).  The wall-clock monitor and the chain monitor watch all of it. */
+enum { R_EPLS_BAG, R_CV_EPLS_BOOT, R_CV_EPLS_LOO, R_PCARANK, R_KMEANSCV, R_KMEANS_RANDOM, R_KMEANS_PP, R_YSCR_LOO, R_YSCR_BOOT, R_SPLIT, R_KFOLDGEN, R_NROUT };
+static const char *RNAME[] = { "EPLS", "BootstrapRandomGroupsCV(EPLS)", "LeaveOneOut(EPLS)", "PCARankValidation", "KMeansRandomGroupsCV", "KMeans(random-start)", "KMeans(kmeans++-start)", "YScrambling(LOO)", "YScrambling(BootstrapRGCV)", "train_test_split", "random_kfold_group_generator" };
+typedef struct { int r; wl_t *w; size_t nthreads; uint32_t seed; int kinit; size_t k; matrix *out; } rt_t;
+
+static void dvec_to_matrix(dvector *v, matrix *out) { size_t i; ResizeMatrix(out, v->size, 1); for (i = 0; i < v->size; i++) out->data[i][0] = v->data[i]; }
+static void run_routine(rt_t *a)
+{
+  wl_t *w = a->w; matrix *out = a->out;
+  MODELINPUT in = initModelInput();
+  ELearningParameters ep = initElearningParameters();
+  in.mx = w->mx; in.my = w->my; in.nlv = w->nlv ? w->nlv : 1; in.xautoscaling = 1; in.yautoscaling = 0;
+  ep.algorithm = Bagging; ep.n_models = 4; ep.trainsize = 0.7; ep.r_fix = 1;
+  switch (a->r) {
+  case R_EPLS_BAG: {
+    EPLSMODEL *m; NewEPLSModel(&m);
+    EPLS(w->mx, w->my, in.nlv, 1, 0, m, ep, NULL);
+    EPLSYPRedictorAllLV(w->mx, m, Averaging, NULL, &out);
+    DelEPLSModel(&m);
+    break; }
+  case R_CV_EPLS_BOOT: BootstrapRandomGroupsCV(&in, w->groups, w->iters, _EPLS_, out, NULL, a->nthreads, NULL, 2, ep, Averaging); break;
+  case R_CV_EPLS_LOO: LeaveOneOut(&in, _EPLS_, out, NULL, a->nthreads, NULL, 2, ep, Averaging); break;
+  case R_PCARANK: { dvector *r2; initDVector(&r2); PCARankValidation(w->mx, w->p < 2 ? 1 : 2, 1, w->groups, w->iters, r2, NULL); dvec_to_matrix(r2, out); DelDVector(&r2); break; }
+  case R_KMEANSCV: { dvector *ss; initDVector(&ss); KMeansRandomGroupsCV(w->mx, a->k, a->kinit, w->groups, w->iters, ss, a->nthreads); dvec_to_matrix(ss, out); DelDVector(&ss); break; }
+  case R_KMEANS_RANDOM: case R_KMEANS_PP: {
+    uivector *lab; matrix *cent; size_t i, j;
+    initUIVector(&lab); initMatrix(&cent);
+    srand_(a->seed);
+    KMeans(w->mx, a->k, a->r == R_KMEANS_RANDOM ? 0 : 1, lab, cent, a->nthreads);
+    ResizeMatrix(out, lab->size + cent->row, cent->col + 1);
+    for (i = 0; i < lab->size; i++) out->data[i][0] = (double)lab->data[i];
+    for (i = 0; i < cent->row; i++) for (j = 0; j < cent->col; j++) out->data[lab->size + i][j + 1] = cent->data[i][j];
+    DelUIVector(&lab); DelMatrix(&cent);
+    break; }
+  case R_YSCR_LOO: case R_YSCR_BOOT: {
+    ValidationArg va = initValidationArg();
+    va.vtype = a->r == R_YSCR_LOO ? LOO : BootstrapRGCV; va.rgcv_group = w->groups; va.rgcv_iterations = 2;
+    YScrambling(&in, w->learner == 1 ? _MLR_ : _PLS_, va, w->iters, out, a->nthreads, NULL);
+    break; }
+  case R_SPLIT: {
+    matrix *xt, *yt, *xs, *ys; uivector *ids; unsigned int sd = a->seed; size_t i, j;
+    initMatrix(&xt); initMatrix(&yt); initMatrix(&xs); initMatrix(&ys); initUIVector(&ids);
+    train_test_split(w->mx, w->my, 0.3, xt, yt, xs, ys, ids, &sd);
+    ResizeMatrix(out, ids->size + xt->row, 1 + w->mx->col);
+    for (i = 0; i < ids->size; i++) out->data[i][0] = (double)ids->data[i];
+    for (i = 0; i < xt->row; i++) for (j = 0; j < xt->col; j++) out->data[ids->size + i][1 + j] = xt->data[i][j];
+    DelMatrix(&xt); DelMatrix(&yt); DelMatrix(&xs); DelMatrix(&ys); DelUIVector(&ids);
+    break; }
+  case R_KFOLDGEN: { unsigned int sd = a->seed; random_kfold_group_generator(out, w->groups, w->n, &sd); break; }
+  }
+}
+static void *routine_thread(void *p) { run_routine((rt_t *)p); return NULL; }
+static int g_ointr_stop;
+static void *other_intruder(void *a)
+{
+  matrix *m; uint32_t k = 1; (void)a;
+  t_is_intruder = 1;
+  NewMatrix(&m, 3, 3);
+  while (!__atomic_load_n(&g_ointr_stop, __ATOMIC_ACQUIRE)) { srand_(k++); (void)randInt(0, 100); (void)randDouble(0.0, 1.0); (void)rand_(); if ((k & 7) == 0) MatrixInitRandomInt(m, 0, 9); }
+  DelMatrix(&m);
+  return NULL;
+}
+/* pre-image of the zero generator state: seed s with lcg^(k+1)(s) == 0, i.e. draw number k after srand_(s) meets state 0 */
+static uint32_t zero_preimage(int k)
+{
+  const uint32_t a = 0x7AFB2C23u, c = 0x894C3u; uint32_t inv = 1, x = 0; int i;
+  for (i = 0; i < 5; i++) inv *= 2u - a * inv;            /* Newton: inverse of a modulo 2^32 */
+  for (i = 0; i <= k; i++) x = (x - c) * inv;
+  return x;
+}
+static void case_other(vh_ctx *c, long kk)
+{
+  int r = (int)(kk % R_NROUT), v, bit, hostile = 0;
+  int learner = (r == R_YSCR_LOO || r == R_YSCR_BOOT) ? (int)vh_int(c, 0, 1) : 0;
+  size_t n = (size_t)vh_int(c, 10, 22), p = (size_t)vh_int(c, 2, 4), groups = (size_t)vh_int(c, 2, 4), iters = (size_t)vh_int(c, 1, 3) * 2, t2 = (size_t)vh_int(c, 2, 4);
+  wl_t w; rt_t a; matrix *ref, *first = NULL; pthread_t th, it; long reads0, breaks0, zeros0;
+  char kclock[96], kchain[96], kbit[96], kthr[96], krun[96];
+  if (r == R_CV_EPLS_BOOT && iters % t2) t2 = 2;
+  if (vh_is_tsan() && (r == R_CV_EPLS_BOOT || r == R_CV_EPLS_LOO)) { n = (size_t)vh_int(c, 10, 12); iters = 2; t2 = 2; }
+  wl_make(c, &w, learner, n, p, 1, groups, iters);
+  a.r = r; a.w = &w; a.nthreads = 1; a.kinit = (int)vh_int(c, 0, 3); a.k = (size_t)vh_int(c, 2, 3);
+  a.seed = (uint32_t)vh_u64(c);
+  if ((r == R_SPLIT || r == R_KFOLDGEN || r == R_KMEANS_RANDOM || r == R_KMEANS_PP) && vh_coin(c, 0.5)) { hostile = 1; a.seed = zero_preimage((int)vh_int(c, 0, 5)); }
+  else if (vh_coin(c, 0.3)) a.seed = (uint32_t)vh_int(c, 0, 40);
+  snprintf(kclock, sizeof kclock, "%s|wall-clock-read-after-seeding", RNAME[r]);
+  snprintf(kchain, sizeof kchain, "%s|rng-stream-perturbed|chain-monitor", RNAME[r]);
+  snprintf(kbit, sizeof kbit, "%s|not-bit-identical-between-runs", RNAME[r]);
+  snprintf(kthr, sizeof kthr, "%s|thread-count-dependence", RNAME[r]);
+  snprintf(krun, sizeof krun, "%s|depends-on-caller-state-or-concurrent-calls", RNAME[r]);
+  vh_class(c, "other-%d-t%zu-h%d", r, t2, hostile);
+  vh_obs("zero_preimage_seeds_tried", hostile);
+  vh_desc(c, "other seeded routine %s: objects=%zu vars=%zu groups=%zu iterations=%zu threads=%zu seed=%u%s init=%d k=%zu", RNAME[r], n, p, groups, iters, t2, a.seed, hostile ? " (pre-image of the zero state)" : "", a.kinit, a.k);
+  reads0 = __atomic_load_n(&g_clock_reads, __ATOMIC_RELAXED); breaks0 = __atomic_load_n(&g_chain_breaks, __ATOMIC_RELAXED); zeros0 = __atomic_load_n(&g_zero_states, __ATOMIC_RELAXED);
+  libsci_verif_rng_hook = other_hook; g_jitter = 0;
+  initMatrix(&ref); a.out = ref;
+  srand_(1u);                                  /* a defined state for the calling thread */
+  run_routine(&a);
+  for (v = 0; v < 5; v++) {
+    matrix *out; double d; int k, conc = v >= 2;
+    initMatrix(&out); a.out = out; a.nthreads = conc ? t2 : 1;
+    if (v == 0) { srand_((uint32_t)vh_u64(c)); for (k = (int)vh_int(c, 0, 9); k > 0; k--) (void)randInt(0, 7); run_routine(&a); }      /* caller's generator elsewhere */
+    else if (v == 1) { pthread_create(&th, NULL, routine_thread, &a); pthread_join(th, NULL); }                                  /* fresh thread */
+    else {                                                                                                                     /* concurrency + delays */
+      __atomic_store_n(&g_ointr_stop, 0, __ATOMIC_RELEASE); g_jitter = 1; g_jit = vh_u64(c);
+      pthread_create(&it, NULL, other_intruder, NULL);
+      run_routine(&a);
+      __atomic_store_n(&g_ointr_stop, 1, __ATOMIC_RELEASE); pthread_join(it, NULL); g_jitter = 0;
+    }
+    vh_obs("other_routine_runs", 1);
+    d = cmp_nan(out, ref, &bit);
+    if (!conc) { if (!bit) vh_fail(c, krun, "%s: max difference to the reference run %g", v == 0 ? "after unrelated generator use by the caller" : "called from a fresh thread", d); }
+    else {
+      if (!(d <= 1e-10 * (1.0 + matrix_maxabs(ref)))) vh_fail(c, kthr, "%zu workers with a concurrent intruder vs 1 worker: max difference %g", t2, d);
+      if (first) { int b2; cmp_nan(out, first, &b2); if (!b2) vh_fail(c, kbit, "repeat %d with %zu workers differs bitwise from the first such run", v - 2, t2); }
+      vh_obs(bit ? "other_bit_identical_to_sequential" : "other_equal_to_rounding_only", 1);
+    }
+    if (conc && !first) first = out; else DelMatrix(&out);
+  }
+  libsci_verif_rng_hook = NULL;
+  if (first) DelMatrix(&first);
+  { long nr = __atomic_load_n(&g_clock_reads, __ATOMIC_RELAXED) - reads0, nb = __atomic_load_n(&g_chain_breaks, __ATOMIC_RELAXED) - breaks0, nz = __atomic_load_n(&g_zero_states, __ATOMIC_RELAXED) - zeros0;
+    vh_obs("clock_reads_in_seeded_routines", (double)nr); vh_obs("zero_generator_states_met", (double)nz);
+    if (nr > 0) vh_fail(c, kclock, "%ld wall-clock reads by the routine's threads (%ld zero generator states met): the result depends on time(NULL)", nr, nz);
+    if (nb > 0) vh_fail(c, kchain, "%ld RNG events consumed a state that is not the successor of the same thread's previous state (saw %u, own stream has %u)", nb, g_break_saw, g_break_want); }
+  DelMatrix(&ref); wl_free(&w);
+}
+
 /* free-running under TSan with an intruder thread */
 static int g_intr_stop;   /* accessed with atomics: the harness must not race itself under TSan */
 static void *tsan_intruder(void *a)
@@ -492,14 +667,17 @@ static void case_tsan(vh_ctx *c)
 static void run_case(vh_ctx *c)
 {
   long k = c->idx;
-  if (vh_is_tsan()) { if (k < n_tsan(c->tier)) case_tsan(c); else case_sweep(c); return; }
+  if (vh_is_tsan()) { if (k < n_tsan(c->tier)) case_tsan(c); else if (k < n_tsan(c->tier) + (c->tier ? 200 : 32)) case_sweep(c); else case_other(c, k - n_tsan(c->tier) - (c->tier ? 200 : 32)); return; }
 #if !defined(__SANITIZE_THREAD__)
   if (k < n_dfs(c->tier)) { case_dfs(c, k); return; }
   k -= n_dfs(c->tier);
   if (k < n_sample(c->tier)) { case_sample(c); return; }
   k -= n_sample(c->tier);
   if (k < n_delay(c->tier)) { case_delay(c); return; }
-  case_sweep(c);
+  k -= n_delay(c->tier);
+  if (k < n_sweep(c->tier)) { case_sweep(c); return; }
+  k -= n_sweep(c->tier);
+  case_other(c, k);
 #endif
 }
 
